@@ -31,6 +31,11 @@ pub struct Conf {
     /// the status answer is larger than anything the kernel buffers (BIG_STATUS bytes of description)
     #[serde(default)]
     big_status: bool,
+    /// "" = the Config value is built in the child; "yaml" = the child calls Config::read(): everything comes from
+    /// a YAML file (CONFIG_FILE) and the secret from its own file (AUTH_SECRET_FILE); "yaml+env" = in addition the
+    /// YAML file says timeout 60 and another secret, overridden by PASSAGE_TIMEOUT and by the secret file
+    #[serde(default)]
+    files: String,
 }
 
 const BIG_STATUS: usize = 24 << 20;
@@ -85,7 +90,75 @@ pub fn child(args: &[String]) {
     }
 }
 
+/// child process: `netsim C14-child-read` - the configuration is what `Config::read()` finds in the files and
+/// environment variables the parent prepared
+pub fn child_read() {
+    unsafe {
+        libc::prctl(libc::PR_SET_PDEATHSIG, libc::SIGKILL);
+    }
+    let c = match passage::config::Config::read() {
+        Ok(c) => c,
+        Err(e) => {
+            eprintln!("Config::read failed: {e}");
+            std::process::exit(4)
+        }
+    };
+    let rt = tokio::runtime::Builder::new_multi_thread().enable_all().build().expect("rt");
+    match rt.block_on(passage::start(c)) {
+        Ok(()) => std::process::exit(0),
+        Err(e) => {
+            eprintln!("passage::start failed: {e}");
+            std::process::exit(3)
+        }
+    }
+}
+
+fn spawn_from_files(conf: &Conf) -> App {
+    let port = free_port();
+    let dir = format!("{}/target/c14-files-{}-{port}", common::VERIF_ROOT, std::process::id());
+    std::fs::create_dir_all(&dir).expect("config dir");
+    let with_env = conf.files == "yaml+env";
+    let yaml = format!(
+        "address: \"127.0.0.1:{port}\"\ntimeout: {}\nmax_packet_length: {}\nauth_cookie_expiry: {}\n{}{}adapters:\n  discovery:\n    fixed:\n      targets:\n      - identifier: \"c14-target\"\n        address: \"10.14.14.14:25565\"\n        meta: {{}}\n  authentication:\n    fixed:\n      profile:\n        id: \"00000000-0000-0000-0000-000000abcdef\"\n        name: \"Fixed_Profile\"\n        properties: []\n",
+        if with_env { 60 } else { conf.timeout },
+        conf.max_packet_length,
+        conf.expiry,
+        if with_env { "auth_secret: \"a-secret-in-the-config-file-that-the-secret-file-overrides\"\n" } else { "" },
+        match conf.proxy.as_str() {
+            "v1" => "proxy_protocol:\n  allow_v1: true\n  allow_v2: false\n",
+            "v2" => "proxy_protocol:\n  allow_v1: false\n  allow_v2: true\n",
+            "v1v2" => "proxy_protocol:\n  allow_v1: true\n  allow_v2: true\n",
+            _ => "",
+        },
+    );
+    std::fs::write(format!("{dir}/config.yaml"), yaml).expect("write config");
+    std::fs::write(format!("{dir}/auth_secret"), SECRET).expect("write secret");
+    let exe = std::env::current_exe().expect("exe");
+    let mut cmd = std::process::Command::new(exe);
+    cmd.arg("C14-child-read").env("CONFIG_FILE", format!("{dir}/config.yaml")).env("AUTH_SECRET_FILE", format!("{dir}/auth_secret")).env_remove("ENV_PREFIX");
+    for (k, _) in std::env::vars().filter(|(k, _)| k.starts_with("PASSAGE_")) {
+        cmd.env_remove(k);
+    }
+    if with_env {
+        cmd.env("PASSAGE_TIMEOUT", conf.timeout.to_string());
+    }
+    let child = cmd.stdout(std::process::Stdio::null()).stderr(std::process::Stdio::null()).spawn().expect("spawn child");
+    let addr: SocketAddr = format!("127.0.0.1:{port}").parse().unwrap();
+    for _ in 0..600 {
+        if std::net::TcpStream::connect_timeout(&addr, Duration::from_millis(200)).is_ok() {
+            std::thread::sleep(Duration::from_millis(20));
+            let _ = std::fs::remove_dir_all(&dir);
+            return App { child, addr };
+        }
+        std::thread::sleep(Duration::from_millis(10));
+    }
+    common::machinery("passage::start (configuration read from files) did not start listening within 6 s")
+}
+
 fn spawn(conf: &Conf) -> App {
+    if !conf.files.is_empty() {
+        return spawn_from_files(conf);
+    }
     spawn_app_with(conf.max_packet_length, conf.expiry, conf.timeout, &conf.proxy, 0, if conf.big_status { &["bigstatus"] } else { &[] })
 }
 
@@ -249,17 +322,29 @@ async fn cookie_cases(addr: SocketAddr, conf: &Conf, out: &Mutex<Vec<Viol>>) -> 
 /// deadline passes. Once the client finally reads, it may only find what the kernel had buffered by then,
 /// followed by the end of the stream - not the complete answer, and not a connection that is still open.
 async fn unread_status_case(addr: SocketAddr, conf: &Conf, out: &Mutex<Vec<Viol>>) {
+    // On a busy machine the server may not get round to producing its 24 MiB answer before the deadline; the client
+    // then finds nothing at all, which says nothing about the deadline. Such an attempt is repeated (twice at most).
+    for attempt in 0..3 {
+        let total = unread_status_attempt(addr, conf, out).await;
+        if total > 0 || attempt == 2 {
+            UNREAD_TOTALS.lock().unwrap().push(total);
+            break;
+        }
+    }
+}
+
+/// one attempt; returns the number of bytes the client found when it finally read
+async fn unread_status_attempt(addr: SocketAddr, conf: &Conf, out: &Mutex<Vec<Viol>>) -> usize {
     use tokio::io::AsyncReadExt;
     let timeout = Duration::from_secs(conf.timeout);
     let Ok(mut c) = McClient::connect_with(addr, None, Some(16 * 1024)).await else {
         out.lock().unwrap().push(("connect-refused".into(), "the server did not accept a connection".into(), json!({"conf": conf, "case": "deadline"})));
-        return;
+        return 1;
     };
     if !conf.proxy.is_empty() && conf.proxy != "off" {
         let src: SocketAddr = "127.0.0.1:1".parse().unwrap();
         let _ = c.send_raw(&if conf.proxy == "v2" { proxy_v2(src, addr) } else { proxy_v1(src, addr) }).await;
     }
-    let t0 = Instant::now();
     let _ = c.send(&codec::sb_handshake(769, "status.example", 25565, 1)).await;
     let _ = c.send(&codec::sb_status_request()).await;
     tokio::time::sleep(timeout + ALLOWANCE).await;
@@ -276,7 +361,6 @@ async fn unread_status_case(addr: SocketAddr, conf: &Conf, out: &Mutex<Vec<Viol>
             Err(_) => break false,
         }
     };
-    UNREAD_TOTALS.lock().unwrap().push(total);
     if total >= BIG_STATUS || !ended {
         out.lock().unwrap().push((
             "deadline-not-enforced:status-never-read".into(),
@@ -284,7 +368,7 @@ async fn unread_status_case(addr: SocketAddr, conf: &Conf, out: &Mutex<Vec<Viol>
             json!({"conf": conf, "case": "deadline", "behaviour": "status-never-read"}),
         ));
     }
-    let _ = t0;
+    total
 }
 
 async fn deadline_case(addr: SocketAddr, conf: &Conf, behaviour: &str, out: &Mutex<Vec<Viol>>) {
@@ -409,32 +493,39 @@ pub fn run(cli: Cli) -> ! {
         vec![serde_json::from_value(case["conf"].clone()).unwrap_or_else(|e| common::machinery(&format!("bad replay: {e}")))]
     } else if thorough {
         vec![
-            Conf { max_packet_length: 7, expiry: 60, timeout: 1, proxy: String::new(), big_status: false },
-            Conf { max_packet_length: 64, expiry: 1, timeout: 2, proxy: String::new(), big_status: false },
-            Conf { max_packet_length: 300, expiry: 60, timeout: 2, proxy: String::new(), big_status: false },
-            Conf { max_packet_length: 1_000, expiry: 60, timeout: 2, proxy: String::new(), big_status: false },
-            Conf { max_packet_length: 2_000, expiry: 1, timeout: 1, proxy: String::new(), big_status: false },
-            Conf { max_packet_length: 10_000, expiry: 3, timeout: 3, proxy: String::new(), big_status: false },
-            Conf { max_packet_length: 1_000, expiry: 21_600, timeout: 18, proxy: String::new(), big_status: false },
-            Conf { max_packet_length: 1_000, expiry: 60, timeout: 4, proxy: "v1v2".into(), big_status: false },
-            Conf { max_packet_length: 1_000, expiry: 60, timeout: 3, proxy: "v2".into(), big_status: false },
-            Conf { max_packet_length: 1_000, expiry: u64::MAX, timeout: u64::MAX, proxy: String::new(), big_status: false },
-            Conf { max_packet_length: 1_000, expiry: 60, timeout: u64::MAX / 2, proxy: "v1v2".into(), big_status: false },
-            Conf { max_packet_length: 1_000, expiry: 60, timeout: 5, proxy: String::new(), big_status: false },
-            Conf { max_packet_length: 2_000, expiry: 1, timeout: 6, proxy: "v2".into(), big_status: false },
-            Conf { max_packet_length: 1_000, expiry: 60, timeout: 2, proxy: String::new(), big_status: true },
-            Conf { max_packet_length: 1_000, expiry: 60, timeout: 1, proxy: "v1v2".into(), big_status: true },
+            Conf { max_packet_length: 7, expiry: 60, timeout: 1, proxy: String::new(), big_status: false, files: String::new() },
+            Conf { max_packet_length: 64, expiry: 1, timeout: 2, proxy: String::new(), big_status: false, files: String::new() },
+            Conf { max_packet_length: 300, expiry: 60, timeout: 2, proxy: String::new(), big_status: false, files: String::new() },
+            Conf { max_packet_length: 1_000, expiry: 60, timeout: 2, proxy: String::new(), big_status: false, files: String::new() },
+            Conf { max_packet_length: 2_000, expiry: 1, timeout: 1, proxy: String::new(), big_status: false, files: String::new() },
+            Conf { max_packet_length: 10_000, expiry: 3, timeout: 3, proxy: String::new(), big_status: false, files: String::new() },
+            Conf { max_packet_length: 1_000, expiry: 21_600, timeout: 18, proxy: String::new(), big_status: false, files: String::new() },
+            Conf { max_packet_length: 1_000, expiry: 60, timeout: 4, proxy: "v1v2".into(), big_status: false, files: String::new() },
+            Conf { max_packet_length: 1_000, expiry: 60, timeout: 3, proxy: "v2".into(), big_status: false, files: String::new() },
+            Conf { max_packet_length: 1_000, expiry: u64::MAX, timeout: u64::MAX, proxy: String::new(), big_status: false, files: String::new() },
+            Conf { max_packet_length: 1_000, expiry: 60, timeout: u64::MAX / 2, proxy: "v1v2".into(), big_status: false, files: String::new() },
+            Conf { max_packet_length: 1_000, expiry: 60, timeout: 5, proxy: String::new(), big_status: false, files: String::new() },
+            Conf { max_packet_length: 2_000, expiry: 1, timeout: 6, proxy: "v2".into(), big_status: false, files: String::new() },
+            Conf { max_packet_length: 1_000, expiry: 60, timeout: 2, proxy: String::new(), big_status: true, files: String::new() },
+            Conf { max_packet_length: 1_000, expiry: 60, timeout: 1, proxy: "v1v2".into(), big_status: true, files: String::new() },
+            Conf { max_packet_length: 1_200, expiry: 3, timeout: 2, proxy: String::new(), big_status: false, files: "yaml".into() },
+            Conf { max_packet_length: 2_000, expiry: 60, timeout: 1, proxy: "v1v2".into(), big_status: false, files: "yaml+env".into() },
+            Conf { max_packet_length: 300, expiry: 1, timeout: 3, proxy: "v2".into(), big_status: false, files: "yaml".into() },
+            Conf { max_packet_length: 10_000, expiry: 2, timeout: 2, proxy: String::new(), big_status: false, files: "yaml+env".into() },
         ]
     } else {
         vec![
-            Conf { max_packet_length: 7, expiry: 60, timeout: 1, proxy: String::new(), big_status: false },
-            Conf { max_packet_length: 64, expiry: 60, timeout: 2, proxy: String::new(), big_status: false },
-            Conf { max_packet_length: 1_000, expiry: 60, timeout: 2, proxy: String::new(), big_status: false },
-            Conf { max_packet_length: 2_000, expiry: 1, timeout: 1, proxy: String::new(), big_status: false },
-            Conf { max_packet_length: 1_000, expiry: 60, timeout: 4, proxy: "v1v2".into(), big_status: false },
-            Conf { max_packet_length: 1_000, expiry: u64::MAX, timeout: u64::MAX, proxy: String::new(), big_status: false },
-            Conf { max_packet_length: 1_000, expiry: 60, timeout: 5, proxy: String::new(), big_status: false },
-            Conf { max_packet_length: 1_000, expiry: 60, timeout: 2, proxy: String::new(), big_status: true },
+            Conf { max_packet_length: 7, expiry: 60, timeout: 1, proxy: String::new(), big_status: false, files: String::new() },
+            Conf { max_packet_length: 64, expiry: 60, timeout: 2, proxy: String::new(), big_status: false, files: String::new() },
+            Conf { max_packet_length: 1_000, expiry: 60, timeout: 2, proxy: String::new(), big_status: false, files: String::new() },
+            Conf { max_packet_length: 2_000, expiry: 1, timeout: 1, proxy: String::new(), big_status: false, files: String::new() },
+            Conf { max_packet_length: 1_000, expiry: 60, timeout: 4, proxy: "v1v2".into(), big_status: false, files: String::new() },
+            Conf { max_packet_length: 1_000, expiry: u64::MAX, timeout: u64::MAX, proxy: String::new(), big_status: false, files: String::new() },
+            Conf { max_packet_length: 1_000, expiry: 60, timeout: 5, proxy: String::new(), big_status: false, files: String::new() },
+            Conf { max_packet_length: 1_000, expiry: 60, timeout: 2, proxy: String::new(), big_status: true, files: String::new() },
+            // the same limits read by Config::read() from a YAML file, a secret file and the environment
+            Conf { max_packet_length: 1_200, expiry: 3, timeout: 2, proxy: String::new(), big_status: false, files: "yaml".into() },
+            Conf { max_packet_length: 2_000, expiry: 60, timeout: 1, proxy: "v1v2".into(), big_status: false, files: "yaml+env".into() },
         ]
     };
     let total = std::sync::atomic::AtomicU64::new(0);
@@ -476,7 +567,7 @@ pub fn run(cli: Cli) -> ! {
     rep.set("status_never_read_bytes_found_after_deadline", json!(totals));
     rep.set("status_answer_bytes", json!(BIG_STATUS));
     rep.set("exhaustive", json!(true));
-    rep.set("rule", json!("one child process running passage::start(config) per configuration (max_packet_length, auth_cookie_expiry, timeout); per configuration: handshake frames of declared length max-1, max, max+1, max+50; cookies aged expiry-2 / expiry+2 / very old / signed with another secret / signed with each of 7 pieces of the configured secret (its lines, the empty key, the secret without its trailing line break), a genuine cookie followed by its tag in front of another body, and (timeout >= 4 s) a cookie with one second left that the client presents 2.2 s later; client behaviours silent, one byte every 100 ms, stopping mid-frame and after each protocol step, and (with PROXY protocol configured) a valid header sent only after 3/4 of the timeout, each required to be disconnected by timeout + 1.5 s; with a 24 MiB status answer, a client that requests it and reads nothing until timeout + 1.5 s must then find a truncated answer and the end of the stream; the process is stopped with SIGINT and must exit cleanly. Each connection is a distinct case."));
+    rep.set("rule", json!("one child process running passage::start(config) per configuration (max_packet_length, auth_cookie_expiry, timeout; two of them read by Config::read() from a YAML file, a secret file and PASSAGE_TIMEOUT); per configuration: handshake frames of declared length max-1, max, max+1, max+50; cookies aged expiry-2 / expiry+2 / very old / signed with another secret / signed with each of 7 pieces of the configured secret (its lines, the empty key, the secret without its trailing line break), a genuine cookie followed by its tag in front of another body, and (timeout >= 4 s) a cookie with one second left that the client presents 2.2 s later; client behaviours silent, one byte every 100 ms, stopping mid-frame and after each protocol step, and (with PROXY protocol configured) a valid header sent only after 3/4 of the timeout, each required to be disconnected by timeout + 1.5 s; with a 24 MiB status answer, a client that requests it and reads nothing until timeout + 1.5 s must then find a truncated answer and the end of the stream; the process is stopped with SIGINT and must exit cleanly. Each connection is a distinct case."));
     rep.sample(json!({"conf": confs[0], "case": "frame-length", "len": confs[0].max_packet_length + 1, "expect": "closed unanswered"}));
     rep.sample(json!({"conf": confs[confs.len() - 1], "case": "deadline", "behaviour": "stop-after-encryption-request", "expect": "closed by timeout + 1.5 s"}));
     rep.assume("real time: 'closed too late' uses a 1.5 s allowance; closing earlier is never a violation");
